@@ -61,7 +61,7 @@ def gen_prog(rng, style=None):
         if r < .35: return [(rng.choice(['interrupt', 'minterrupt']), [rng.randrange(n), rng.choice(errs)])]
         if r < .55: return [(rng.choice(['usleep', 'musleep']), [rng.choice(hold + [0])])]
         if r < .70: return [(rng.choice(['yield', 'myield']), [])]
-        if r < .80: return [('locked', [rng.randrange(nm)])]
+        if r < .80: return [('nop', [])]
         if r < .88: return [(rng.choice(UNLOCK_OPS), [rng.randrange(nm)])]      # unlock without holding / wrong class
         if r < .94: return [(rng.choice(LOCK_OPS), [rng.randrange(nm), tmo()])]  # unbracketed / wrong class
         return [('nop', [])]
@@ -149,7 +149,7 @@ class Check(DiffCheck):
     trusted_base = ['E2 engine: hooks H-clock/H-idle in thread.cpp, harness/E2, coq/Sched (owner C04)',
                     'glue C01_Coop.v (view of the Sched state / mirroring of wake-ups)']
     partial_note = ''
-    case_timeout = 900
+    case_timeout = 7000
 
     def __init__(self):
         self.runner_ml = e2lib.make_runner(self.id, ['ocaml/E2_lib.ml', 'ocaml/C01_run.ml'])
@@ -162,7 +162,7 @@ class Check(DiffCheck):
         corpus = os.path.join(VERIF, 'replay', 'corpus', 'C01.cases')
         if os.path.exists(corpus):
             cases += [l.strip() for l in open(corpus) if l.strip() and not l.startswith('#')]
-        n = int(os.environ.get('C01_N', '0')) or (600 if tier == 'quick' else 8000)
+        n = int(os.environ.get('C01_N', '0')) or (400 if tier == 'quick' else 6000)
         for _ in range(n):
             cases.append(gen_prog(rng))
         return cases
